@@ -475,12 +475,54 @@ def r4_r5_r7_load(ctx, R4="C02.R4", R5="C02.R5", R7="C02.R7") -> None:
                           "(written at the first port after the value ports, or without offset) is reloaded as an ordinary port, so "
                           "order links are lost or turned into value links", eloop,
                           expected="inverse of _constrain_offset (may yield -1)", found=u(off))
+                if ok and side == "source":
+                    _decoder_table(ctx, R5, hugr, inv, co)
                 if ok:
                     dec_helpers = {call_name(x) for x in calls_in(inv)} - {None}
                     shared = (enc_helpers & dec_helpers) - {"isinstance", "len", "int"}
                     ctx.check(bool(shared), R5, f"Hugr._from_serial: {side} offset agrees with encoder", file, inv.lineno,
                               "the order-port encoder and its inverse do not derive the order port's position from a common helper: "
                               f"encoder uses {sorted(enc_helpers)}, decoder {sorted(dec_helpers)}", inv, detail=f"shared helper {sorted(shared)}")
+
+
+def _decoder_table(ctx, R5, hugr, inv, co) -> None:
+    """the decoder as a decision table over (offset given?, node has an order port?, offset below it?): whether the node has an
+    order port is decided by the encoder's own helper on both branches (Call is not a DataflowOp, yet has an order port)"""
+    file = hugr.module.path
+    args = [a.arg for a in inv.args.args]
+    if len(args) != 4:
+        ctx.broken(f"Hugr.{inv.name}: expected (self, node, offset, direction)")
+    _, node, off, direction = args
+    helpers = sorted(n for n in ({call_name(c) for c in calls_in(co)} & {call_name(c) for c in calls_in(inv)}) - {None, "isinstance", "len", "int"}
+                     if n in hugr.methods)
+    if not helpers:
+        return      # reported by the shared-helper instance below
+    oo = f"self.{helpers[0]}({node}, {direction})"
+    has_order, given, below = f"{oo} is not None", f"{off} is not None", f"{off} < {oo}"
+    bad = None
+    n = 0
+    for q in ctx.paths(f"{BASE}.Hugr.{inv.name}"):
+        if q.kind != "return":
+            continue
+        n += 1
+        v = q.value_text()
+        t = lambda tm, k: q.has_test(tm, k) is not None      # noqa: E731
+        if v == "-1":
+            ok = t(has_order, True) and (t(given, False) or t(below, False))
+        elif v == "0":
+            ok = t(given, False) and t(has_order, False)
+        elif v == off:
+            ok = t(given, True) and (t(has_order, False) or t(below, True))
+        else:
+            ok = False
+        if not ok:
+            bad = q
+            break
+    ctx.check(bad is None and n >= 3, R5, f"Hugr.{inv.name}: decision table", file, inv.lineno,
+              f"the decoder must answer -1 exactly when `{oo}` is not None and the offset is absent or not below it, 0 only for an absent offset "
+              "on a node without order port, and the given offset otherwise; both branches must ask the encoder's helper whether the node has "
+              "an order port (a Call has one without being a DataflowOp)" + (f" [path {bad.describe()}]" if bad else ""),
+              bad.node if bad is not None and bad.node is not None else inv, found=bad.describe() if bad else "", detail=f"{n} return paths")
 
 
 def _guard_of(loop, stmt):
@@ -546,6 +588,9 @@ def run(ctx) -> None:
     from .c03 import r5_order_offset
     r5_order_offset(ctx, rule="C02.R5")     # the decoder's inverse shares this helper: its table must be right for reloads to keep their links
     r6_entry_points(ctx, nf)
+    ctx.rule("C02.R8", "the emitted node list follows the hierarchy (root first, parents before children, siblings in order), not index order (shared with C03.R3/R4): a reload rebuilds children in list order", floor=2)
+    from .c03 import r3_r4_order
+    r3_r4_order(ctx, rule3="C02.R8", rule4="C02.R8")
     ctx.stats["nf call sites resolved/unresolved"] = [nf.resolved_calls, nf.unresolved_calls]
     from .. import lints
     lints.arm(ctx)
